@@ -771,9 +771,15 @@ class Engine:
                     assoc_path(self.flow, path, flow_update)
 
         if process_updates:
+            # A Step listed among the processes still has its place in
+            # the flow (as at construction).
+            new_flow: dict = {}
+            for flow_path, flow_update in flow_updates:
+                if flow_update is not None:
+                    assoc_path(new_flow, flow_path, flow_update)
             for path, process in process_updates:
                 assoc_path(self.processes, path, process)
-                self._add_process_path(process, path, {})
+                self._add_process_path(process, path, new_flow)
 
         if step_updates:
             for path, step in step_updates:
